@@ -43,6 +43,7 @@ CONTROLS = {
               ("Proxy.mc.cfg", {"Bug": '"timeout_ignored"'}, "ContractHolds")],
     "Retry": [("Retry.mc.cfg", {"Bug": '"no_inherit"'}, "ContractHolds"),
               ("Retry.mc.cfg", {"Bug": '"no_wake_on_retry"'}, "NoLostWakeup"),
+              ("Retry.mc.cfg", {"Bug": '"wake_before_append"'}, "NoLostWakeup"),
               ("Retry.mc.cfg", {"Bug": '"done_check_before_locks"'}, "ContractHolds"),
               ("Retry.mc3.cfg", {"Bug": '"stop_priority_lost"'}, "ContractHolds"),
               ("Retry.mc.cfg", {"AsShipped_D8": "TRUE"}, "NoStaleJobAtEnd"),
